@@ -130,6 +130,12 @@ def main():
             meta = json.load(open(os.path.join(VERIF, kind, name,
                                                'meta.json')))
             tgt = meta['breaks_property']
+            for pp, (rc, lines) in sorted(res.items()):
+                if rc == 2 and any('internal' in ln for ln in lines):
+                    bad += 1
+                    print('INTERNAL-ERROR seeded/%s %s' % (name, pp))
+                    for ln in lines:
+                        print('      ' + ln)
             if tgt in res:
                 rc, lines = res[tgt]
                 if rc == 1:
